@@ -127,7 +127,11 @@ pub fn execute(case: &StreamCase, st: &mut Stats) -> Exec {
     let mut cutter_pos = 0usize;
     let mut stop_hard = false; // panic / hard error / SHORTLEN: nothing is required afterwards
     for _ in 0..max_calls {
-        let r = match guarded(|| read_message(&mut reader, filter.as_ref())) {
+        let slice_api = crate::scen_common::via_slice(results.len(), data.len());
+        if slice_api {
+            st.inc("reader_calls_via_next_message_slice");
+        }
+        let r = match guarded(|| crate::scen_common::reader_call(&mut reader, filter.as_ref(), slice_api)) {
             Ok(r) => read_res(&r),
             Err(p) => Res::Panic(p),
         };
